@@ -71,7 +71,7 @@ func der(r, s *big.Int, padR, padS bool) []byte {
 }
 
 // sigClass names how a signature slot deviates from a correct signature.
-var sigClasses = []string{"correct", "correct", "correct", "correct", "correct", "correct", "wrongmsg", "wrongkey", "empty", "highS", "padR", "padS", "truncated", "badtype", "forkmismatch", "onlytype", "garbage", "dermut", "dermut", "negR", "negS", "zeroS", "longpad"}
+var sigClasses = []string{"correct", "correct", "correct", "correct", "correct", "correct", "wrongmsg", "wrongkey", "empty", "highS", "padR", "padS", "truncated", "badtype", "forkmismatch", "onlytype", "garbage", "dermut", "dermut", "negR", "negS", "zeroS", "longpad", "edgeS"}
 
 type recChecker struct {
 	codes map[byte][]byte // placeholder id -> script code handed to CheckSig
@@ -497,6 +497,19 @@ func SigScriptsFor(t *rapid.T, tx ref.Tx, idx int) SigProgram {
 			for len(body) < target {
 				body = append(body, byte(0x11+len(body)))
 			}
+		case "edgeS": // S on and next to the bounds an implementation compares it with: n/2 (low-S), n, p/2, p, 2^255
+			n := bec.S256().N
+			pf := bec.S256().Params().P
+			base := rapid.SampledFrom([]*big.Int{new(big.Int).Rsh(n, 1), n, new(big.Int).Rsh(pf, 1), pf, new(big.Int).Lsh(big.NewInt(1), 255), new(big.Int).Lsh(big.NewInt(1), 128), big.NewInt(0)}).Draw(t, "edges_base")
+			d := rapid.SampledFrom([]int64{-2, -1, 0, 1, 2}).Draw(t, "edges_d")
+			sv2 := new(big.Int).Add(base, big.NewInt(d))
+			if rapid.IntRange(0, 3).Draw(t, "edges_far") == 0 { // somewhere inside (n/2, p/2] or just above n/2 by a large step
+				sv2 = new(big.Int).Add(new(big.Int).Rsh(n, 1), new(big.Int).Lsh(big.NewInt(1), uint(rapid.IntRange(1, 126).Draw(t, "edges_shift"))))
+			}
+			if sv2.Sign() <= 0 {
+				sv2 = big.NewInt(1)
+			}
+			body = der(r, sv2, false, false)
 		case "zeroS":
 			rB := derInt(r, false)
 			inner := append(rB, 0x02, 0x00)
